@@ -46,16 +46,31 @@ Proof.
   - apply IH; [|exact F2]. intros i tr' Hi. rewrite (H (S i) tr' Hi). lia.
 Qed.
 
-Theorem observe_expected : forall h : list (op N), observe (run h) = expected (spec_run h).
+Lemma wf_snoc_inv {A} (h : list (op A)) o : wf_hist (h ++ [o]) -> wf_hist h.
 Proof.
-  intros h. pose proof (run_inv h) as I. pose proof (run_sim h) as S.
+  intros W. inversion W as [E|h' o' W' _ E].
+  - destruct h; discriminate.
+  - apply app_inj_tail in E as [-> _]. exact W'.
+Qed.
+
+Lemma wf_prefix {A} (h2 h1 : list (op A)) : wf_hist (h1 ++ h2) -> wf_hist h1.
+Proof.
+  induction h2 as [|o h2 IH] using rev_ind; intros W.
+  - rewrite app_nil_r in W. exact W.
+  - rewrite app_assoc in W. apply IH, (wf_snoc_inv _ o), W.
+Qed.
+
+Theorem observe_expected : forall h : list (op N), wf_hist h -> observe (run h) = expected (spec_run h).
+Proof.
+  intros h W. pose proof (run_inv h W) as I. pose proof (run_sim h) as S.
+  pose proof (proj2 (run_wf h W)) as Ee.
   assert (En : nrows (run h) = e_nrows (spec_run h)).
   { unfold nrows, e_nrows. rewrite (sim_rows _ _ S), map_length. reflexivity. }
-  assert (Ec : ncols (run h) = e_ncols (spec_run h)) by apply core_ncols_spec.
+  assert (Ec : ncols (run h) = e_ncols (spec_run h)) by apply (core_ncols_spec h W).
   assert (Ew : Nat.max (ncols (run h)) (list_max (map row_size (all_rows (run h))))
              = Nat.max (e_ncols (spec_run h)) (list_max (map srow_size (sp_rows (spec_run h))))).
   { rewrite Ec, (sim_rows _ _ S), sizes_erase. reflexivity. }
-  unfold observe, expected. cbv zeta. rewrite Ew, En, Ec. f_equal.
+  unfold observe, expected. cbv zeta. rewrite Ew, En, Ec, Ee. unfold e_row_num. cbn [assoc]. f_equal.
   - (* header *)
     unfold headers. rewrite (sim_header _ _ S). pose proof (inv_header _ _ I) as Hh.
     destruct (t_header (run h)) as [cs|]; cbn [option_map]; [|reflexivity].
@@ -69,24 +84,28 @@ Proof.
   - (* CellAt over the box *)
     apply flat_map_ext. intros r. apply flat_map_ext. intros c.
     pose proof (core_cell_at_spec h r c) as Hs.
-    pose proof (proj2 (core_cell_at h r c)) as Hl.
+    pose proof (proj2 (core_cell_at h r c) W) as Hl.
     destruct (cell_at (run h) r c) as [[rn x]| |]; [|rewrite Hs; reflexivity|contradiction].
-    rewrite Hs. destruct (Hl rn x eq_refl) as [L1 L2]. rewrite L1, L2. reflexivity.
+    rewrite Hs. destruct (Hl rn x eq_refl) as [L1 L2]. rewrite L1, L2.
+    assert (1 <= r)%Z.
+    { unfold e_cell_at in Hs. destruct (1 <=? r)%Z eqn:R1; [apply Z.leb_le, R1 | discriminate]. }
+    rewrite Z2Nat.id by lia. reflexivity.
   - (* Column(n) *)
-    apply map_ext. intros n. rewrite core_column. unfold e_column_exists. rewrite Ec. reflexivity.
+    apply map_ext. intros n. rewrite (core_column h n W). unfold e_column_exists. rewrite Ec. reflexivity.
 Qed.
 
-Lemma trace_from_run : forall (h2 h1 : list (op N)),
+Lemma trace_from_run : forall (h2 h1 : list (op N)), wf_hist (h1 ++ h2) ->
   trace_from (run h1) h2 = spec_trace_from (spec_run h1) h2.
 Proof.
-  induction h2 as [|o h2 IH]; intros h1; [reflexivity|].
+  induction h2 as [|o h2 IH]; intros h1 W; [reflexivity|].
   cbn [trace_from spec_trace_from]. cbv zeta.
-  rewrite <- run_snoc, <- spec_run_snoc, observe_expected. f_equal. apply IH.
+  replace (h1 ++ o :: h2) with ((h1 ++ [o]) ++ h2) in W by (rewrite <- app_assoc; reflexivity).
+  rewrite <- run_snoc, <- spec_run_snoc, (observe_expected _ (wf_prefix h2 _ W)). f_equal. apply IH, W.
 Qed.
 
-(* the dump of the model after every op of any history is the expected dump *)
-Theorem model_dump_expected : forall h : list (op N), model_dump h = spec_dump h.
-Proof. intros h. unfold model_dump, spec_dump. f_equal. apply (trace_from_run h []). Qed.
+(* the dump of the model after every op of a history is the expected dump *)
+Theorem model_dump_expected : forall h : list (op N), wf_hist h -> model_dump h = spec_dump h.
+Proof. intros h W. unfold model_dump, spec_dump. f_equal. apply (trace_from_run h [] W). Qed.
 
-Theorem model_dump_last_expected : forall h : list (op N), model_dump_last h = spec_dump_last h.
-Proof. intros h. unfold model_dump_last, spec_dump_last. rewrite observe_expected. reflexivity. Qed.
+Theorem model_dump_last_expected : forall h : list (op N), wf_hist h -> model_dump_last h = spec_dump_last h.
+Proof. intros h W. unfold model_dump_last, spec_dump_last. rewrite (observe_expected h W). reflexivity. Qed.
